@@ -17,6 +17,7 @@ LEAN_MODULES = ["Pkgcore.Props.C19"]
 OBLIGATIONS = [
     "Pkgcore.C19.merge_crash_safe_partial",
     "Pkgcore.C19.merge_crash_states",
+    "Pkgcore.C19.merge_log_is_trajectory",
     "Pkgcore.C19.merge_crash_safe_counterexample",
     "Pkgcore.C19.atomic_replace_prefix",
     "Pkgcore.C19.crashSafe_bounded_iff",
@@ -27,8 +28,9 @@ TRUSTED = c18.TRUSTED + [
     "rename(2) replaces the destination atomically (POSIX), as the abstract file system states",
 ]
 ASSUMPTIONS = c18.ASSUMPTIONS + [
-    "the theorem quantifies over every prefix of the calls of a merge that returns normally when left alone; merges that raise, "
-    "half-written data blocks and EIO faults are covered by the sampled runs only",
+    "the theorem quantifies over every prefix of the calls of every merge, whatever it would return (normally or an exception "
+    "half-way); half-written data blocks and injected EIO faults (the code's error handling under faults the model does not "
+    "produce) are covered by the sampled runs only",
 ]
 RULE = ("random small contents trees over random pre-existing roots (generators of C18); for each, every mutating call k of the real merge "
         "is a crash point (fresh identical root, killed before call k), plus half-write crashes and EIO injection at every k; "
@@ -92,7 +94,7 @@ def run(ctx):
     cases = [(pre, ents, off, "corpus") for pre, ents, off in CORPUS]
     if ctx.replay_cases:
         cases = [(c["pre"], c["entries"], c["offset"], "replay") for c in ctx.replay_cases if "entries" in c] + cases
-    for _ in range(ctx.n(120, 2000)):
+    for _ in range(ctx.n(100, 2000)):
         pre = gen_pre(rng, size=rng.randint(1, 6))
         ents = gen_entries(rng, pre, wellformed=rng.random() < 0.9)[: rng.randint(1, 5)]
         if ents:
@@ -151,7 +153,7 @@ def run(ctx):
             ctx.mismatch(case, "uninterrupted run: real %s / model %s, traces %s" % (res, m["result"], "equal" if rt == m["trace"] else "differ"))
             continue
         # model's own crash points obey the theorem
-        if res == "ok" and not (guards - {"dirsym"}):
+        if not (guards - {"dirsym"}):
             bad = [k for k, f in enumerate(m["fail" if "dirsym" not in guards else "failW"]) if f]
             if bad:
                 ctx.mismatch(case, "model crash points %s violate the proved theorem?!" % bad[:5])
@@ -199,5 +201,5 @@ LEVEL_TEXT = ("Kernel-checked Lean 4 theorem over the model of merge_contents (C
               "before every mutating call (and inside writes, and with EIO faults) and comparing the surviving file system with the model's "
               "prefix state and with the Lean specification.")
 LEVEL_NOTE = ("Partial: a directory entry merged over a (dangling) symlink is unlinked before the directory is made (open finding; the theorem "
-              "without that class is proved, the weaker window statement covers it); merges that raise and fault injection are sampled only; "
-              "no reordering below the syscall layer.")
+              "without that class is proved for every merge whatever its outcome, the weaker window statement covers the class); fault "
+              "injection and half-written blocks are sampled only; no reordering below the syscall layer.")
